@@ -64,6 +64,9 @@ type ijCase struct {
 	ExtValue    string
 	// Prev: configurations and assignments the same injector saw before (the written file must only depend on the last ones)
 	Prev []*ijCase
+	// TargetsFirst: the assignment reaches the injector before the configuration does (a sidecar restarted without
+	// --config.file loads its stored assignment first and gets the configuration from the coordinator afterwards)
+	TargetsFirst bool
 }
 
 func ijAuthYAML(ind, auth, user, secret string) string {
@@ -340,8 +343,15 @@ func injectRun(in interface{}) (string, interface{}, map[string]int) {
 		}
 		asT = append(asT, fmt.Sprintf("(%s, %s)", cStr(job), cList(tsT)))
 	}
-	e1 := inj.ApplyConfig(m.ConfigInfo())
-	e2 := inj.UpdateTargets(assign)
+	var e1, e2 error
+	if c.TargetsFirst {
+		e2 = inj.UpdateTargets(assign)
+		e1 = inj.ApplyConfig(m.ConfigInfo())
+		st["targets_first"]++
+	} else {
+		e1 = inj.ApplyConfig(m.ConfigInfo())
+		e2 = inj.UpdateTargets(assign)
+	}
 	if e1 != nil || e2 != nil {
 		ob.Err = fmt.Sprint(e1, e2)
 	}
@@ -421,6 +431,7 @@ func globalPart(text string) string {
 
 func injectGen(r *rand.Rand, idx int, thorough bool) interface{} {
 	c := injectGen1(r, idx, thorough)
+	c.TargetsFirst = idx%3 == 1
 	// history before: fresh configurations, or near-copies of the final one that differ only in the external labels,
 	// in one secret outside the jobs, or in the assignment
 	for k := 0; k < r.Intn(3); k++ {
